@@ -11,19 +11,30 @@ import (
 
 func AddInt32(addr *int32, delta int32) (new int32) {
 	simrt.Point("atomic.add", true)
+	simrt.SyncAddr(unsafe.Pointer(addr))
 	*addr += delta
 	return *addr
 }
-func LoadInt32(addr *int32) (val int32) { simrt.Point("atomic.load", false); return *addr }
-func StoreInt32(addr *int32, val int32) { simrt.Point("atomic.store", true); *addr = val }
+func LoadInt32(addr *int32) (val int32) {
+	simrt.Point("atomic.load", false)
+	simrt.SyncAddr(unsafe.Pointer(addr))
+	return *addr
+}
+func StoreInt32(addr *int32, val int32) {
+	simrt.Point("atomic.store", true)
+	simrt.SyncAddr(unsafe.Pointer(addr))
+	*addr = val
+}
 func SwapInt32(addr *int32, new int32) (old int32) {
 	simrt.Point("atomic.swap", true)
+	simrt.SyncAddr(unsafe.Pointer(addr))
 	old = *addr
 	*addr = new
 	return
 }
 func CompareAndSwapInt32(addr *int32, old, new int32) (swapped bool) {
 	simrt.Point("atomic.cas", true)
+	simrt.SyncAddr(unsafe.Pointer(addr))
 	if *addr == old {
 		*addr = new
 		return true
@@ -41,19 +52,30 @@ func (x *Int32) CompareAndSwap(old, new int32) bool { return CompareAndSwapInt32
 
 func AddInt64(addr *int64, delta int64) (new int64) {
 	simrt.Point("atomic.add", true)
+	simrt.SyncAddr(unsafe.Pointer(addr))
 	*addr += delta
 	return *addr
 }
-func LoadInt64(addr *int64) (val int64) { simrt.Point("atomic.load", false); return *addr }
-func StoreInt64(addr *int64, val int64) { simrt.Point("atomic.store", true); *addr = val }
+func LoadInt64(addr *int64) (val int64) {
+	simrt.Point("atomic.load", false)
+	simrt.SyncAddr(unsafe.Pointer(addr))
+	return *addr
+}
+func StoreInt64(addr *int64, val int64) {
+	simrt.Point("atomic.store", true)
+	simrt.SyncAddr(unsafe.Pointer(addr))
+	*addr = val
+}
 func SwapInt64(addr *int64, new int64) (old int64) {
 	simrt.Point("atomic.swap", true)
+	simrt.SyncAddr(unsafe.Pointer(addr))
 	old = *addr
 	*addr = new
 	return
 }
 func CompareAndSwapInt64(addr *int64, old, new int64) (swapped bool) {
 	simrt.Point("atomic.cas", true)
+	simrt.SyncAddr(unsafe.Pointer(addr))
 	if *addr == old {
 		*addr = new
 		return true
@@ -71,19 +93,30 @@ func (x *Int64) CompareAndSwap(old, new int64) bool { return CompareAndSwapInt64
 
 func AddUint32(addr *uint32, delta uint32) (new uint32) {
 	simrt.Point("atomic.add", true)
+	simrt.SyncAddr(unsafe.Pointer(addr))
 	*addr += delta
 	return *addr
 }
-func LoadUint32(addr *uint32) (val uint32) { simrt.Point("atomic.load", false); return *addr }
-func StoreUint32(addr *uint32, val uint32) { simrt.Point("atomic.store", true); *addr = val }
+func LoadUint32(addr *uint32) (val uint32) {
+	simrt.Point("atomic.load", false)
+	simrt.SyncAddr(unsafe.Pointer(addr))
+	return *addr
+}
+func StoreUint32(addr *uint32, val uint32) {
+	simrt.Point("atomic.store", true)
+	simrt.SyncAddr(unsafe.Pointer(addr))
+	*addr = val
+}
 func SwapUint32(addr *uint32, new uint32) (old uint32) {
 	simrt.Point("atomic.swap", true)
+	simrt.SyncAddr(unsafe.Pointer(addr))
 	old = *addr
 	*addr = new
 	return
 }
 func CompareAndSwapUint32(addr *uint32, old, new uint32) (swapped bool) {
 	simrt.Point("atomic.cas", true)
+	simrt.SyncAddr(unsafe.Pointer(addr))
 	if *addr == old {
 		*addr = new
 		return true
@@ -101,19 +134,30 @@ func (x *Uint32) CompareAndSwap(old, new uint32) bool { return CompareAndSwapUin
 
 func AddUint64(addr *uint64, delta uint64) (new uint64) {
 	simrt.Point("atomic.add", true)
+	simrt.SyncAddr(unsafe.Pointer(addr))
 	*addr += delta
 	return *addr
 }
-func LoadUint64(addr *uint64) (val uint64) { simrt.Point("atomic.load", false); return *addr }
-func StoreUint64(addr *uint64, val uint64) { simrt.Point("atomic.store", true); *addr = val }
+func LoadUint64(addr *uint64) (val uint64) {
+	simrt.Point("atomic.load", false)
+	simrt.SyncAddr(unsafe.Pointer(addr))
+	return *addr
+}
+func StoreUint64(addr *uint64, val uint64) {
+	simrt.Point("atomic.store", true)
+	simrt.SyncAddr(unsafe.Pointer(addr))
+	*addr = val
+}
 func SwapUint64(addr *uint64, new uint64) (old uint64) {
 	simrt.Point("atomic.swap", true)
+	simrt.SyncAddr(unsafe.Pointer(addr))
 	old = *addr
 	*addr = new
 	return
 }
 func CompareAndSwapUint64(addr *uint64, old, new uint64) (swapped bool) {
 	simrt.Point("atomic.cas", true)
+	simrt.SyncAddr(unsafe.Pointer(addr))
 	if *addr == old {
 		*addr = new
 		return true
@@ -131,19 +175,30 @@ func (x *Uint64) CompareAndSwap(old, new uint64) bool { return CompareAndSwapUin
 
 func AddUintptr(addr *uintptr, delta uintptr) (new uintptr) {
 	simrt.Point("atomic.add", true)
+	simrt.SyncAddr(unsafe.Pointer(addr))
 	*addr += delta
 	return *addr
 }
-func LoadUintptr(addr *uintptr) (val uintptr) { simrt.Point("atomic.load", false); return *addr }
-func StoreUintptr(addr *uintptr, val uintptr) { simrt.Point("atomic.store", true); *addr = val }
+func LoadUintptr(addr *uintptr) (val uintptr) {
+	simrt.Point("atomic.load", false)
+	simrt.SyncAddr(unsafe.Pointer(addr))
+	return *addr
+}
+func StoreUintptr(addr *uintptr, val uintptr) {
+	simrt.Point("atomic.store", true)
+	simrt.SyncAddr(unsafe.Pointer(addr))
+	*addr = val
+}
 func SwapUintptr(addr *uintptr, new uintptr) (old uintptr) {
 	simrt.Point("atomic.swap", true)
+	simrt.SyncAddr(unsafe.Pointer(addr))
 	old = *addr
 	*addr = new
 	return
 }
 func CompareAndSwapUintptr(addr *uintptr, old, new uintptr) (swapped bool) {
 	simrt.Point("atomic.cas", true)
+	simrt.SyncAddr(unsafe.Pointer(addr))
 	if *addr == old {
 		*addr = new
 		return true
@@ -161,12 +216,14 @@ func (x *Uintptr) CompareAndSwap(old, new uintptr) bool { return CompareAndSwapU
 
 func AndInt32(addr *int32, mask int32) (old int32) {
 	simrt.Point("atomic.and", true)
+	simrt.SyncAddr(unsafe.Pointer(addr))
 	old = *addr
 	*addr &= mask
 	return
 }
 func OrInt32(addr *int32, mask int32) (old int32) {
 	simrt.Point("atomic.or", true)
+	simrt.SyncAddr(unsafe.Pointer(addr))
 	old = *addr
 	*addr |= mask
 	return
@@ -176,12 +233,14 @@ func (x *Int32) Or(mask int32) int32  { return OrInt32(&x.v, mask) }
 
 func AndInt64(addr *int64, mask int64) (old int64) {
 	simrt.Point("atomic.and", true)
+	simrt.SyncAddr(unsafe.Pointer(addr))
 	old = *addr
 	*addr &= mask
 	return
 }
 func OrInt64(addr *int64, mask int64) (old int64) {
 	simrt.Point("atomic.or", true)
+	simrt.SyncAddr(unsafe.Pointer(addr))
 	old = *addr
 	*addr |= mask
 	return
@@ -191,12 +250,14 @@ func (x *Int64) Or(mask int64) int64  { return OrInt64(&x.v, mask) }
 
 func AndUint32(addr *uint32, mask uint32) (old uint32) {
 	simrt.Point("atomic.and", true)
+	simrt.SyncAddr(unsafe.Pointer(addr))
 	old = *addr
 	*addr &= mask
 	return
 }
 func OrUint32(addr *uint32, mask uint32) (old uint32) {
 	simrt.Point("atomic.or", true)
+	simrt.SyncAddr(unsafe.Pointer(addr))
 	old = *addr
 	*addr |= mask
 	return
@@ -206,12 +267,14 @@ func (x *Uint32) Or(mask uint32) uint32  { return OrUint32(&x.v, mask) }
 
 func AndUint64(addr *uint64, mask uint64) (old uint64) {
 	simrt.Point("atomic.and", true)
+	simrt.SyncAddr(unsafe.Pointer(addr))
 	old = *addr
 	*addr &= mask
 	return
 }
 func OrUint64(addr *uint64, mask uint64) (old uint64) {
 	simrt.Point("atomic.or", true)
+	simrt.SyncAddr(unsafe.Pointer(addr))
 	old = *addr
 	*addr |= mask
 	return
@@ -221,12 +284,14 @@ func (x *Uint64) Or(mask uint64) uint64  { return OrUint64(&x.v, mask) }
 
 func AndUintptr(addr *uintptr, mask uintptr) (old uintptr) {
 	simrt.Point("atomic.and", true)
+	simrt.SyncAddr(unsafe.Pointer(addr))
 	old = *addr
 	*addr &= mask
 	return
 }
 func OrUintptr(addr *uintptr, mask uintptr) (old uintptr) {
 	simrt.Point("atomic.or", true)
+	simrt.SyncAddr(unsafe.Pointer(addr))
 	old = *addr
 	*addr |= mask
 	return
@@ -236,20 +301,24 @@ func (x *Uintptr) Or(mask uintptr) uintptr  { return OrUintptr(&x.v, mask) }
 
 func LoadPointer(addr *unsafe.Pointer) (val unsafe.Pointer) {
 	simrt.Point("atomic.load", false)
+	simrt.SyncAddr(unsafe.Pointer(addr))
 	return *addr
 }
 func StorePointer(addr *unsafe.Pointer, val unsafe.Pointer) {
 	simrt.Point("atomic.store", true)
+	simrt.SyncAddr(unsafe.Pointer(addr))
 	*addr = val
 }
 func SwapPointer(addr *unsafe.Pointer, new unsafe.Pointer) (old unsafe.Pointer) {
 	simrt.Point("atomic.swap", true)
+	simrt.SyncAddr(unsafe.Pointer(addr))
 	old = *addr
 	*addr = new
 	return
 }
 func CompareAndSwapPointer(addr *unsafe.Pointer, old, new unsafe.Pointer) (swapped bool) {
 	simrt.Point("atomic.cas", true)
+	simrt.SyncAddr(unsafe.Pointer(addr))
 	if *addr == old {
 		*addr = new
 		return true
@@ -259,16 +328,26 @@ func CompareAndSwapPointer(addr *unsafe.Pointer, old, new unsafe.Pointer) (swapp
 
 type Bool struct{ v bool }
 
-func (x *Bool) Load() bool     { simrt.Point("atomic.load", false); return x.v }
-func (x *Bool) Store(val bool) { simrt.Point("atomic.store", true); x.v = val }
+func (x *Bool) Load() bool {
+	simrt.Point("atomic.load", false)
+	simrt.SyncAddr(unsafe.Pointer(x))
+	return x.v
+}
+func (x *Bool) Store(val bool) {
+	simrt.Point("atomic.store", true)
+	simrt.SyncAddr(unsafe.Pointer(x))
+	x.v = val
+}
 func (x *Bool) Swap(new bool) (old bool) {
 	simrt.Point("atomic.swap", true)
+	simrt.SyncAddr(unsafe.Pointer(x))
 	old = x.v
 	x.v = new
 	return
 }
 func (x *Bool) CompareAndSwap(old, new bool) bool {
 	simrt.Point("atomic.cas", true)
+	simrt.SyncAddr(unsafe.Pointer(x))
 	if x.v == old {
 		x.v = new
 		return true
@@ -278,16 +357,26 @@ func (x *Bool) CompareAndSwap(old, new bool) bool {
 
 type Pointer[T any] struct{ v *T }
 
-func (x *Pointer[T]) Load() *T     { simrt.Point("atomic.load", false); return x.v }
-func (x *Pointer[T]) Store(val *T) { simrt.Point("atomic.store", true); x.v = val }
+func (x *Pointer[T]) Load() *T {
+	simrt.Point("atomic.load", false)
+	simrt.SyncAddr(unsafe.Pointer(x))
+	return x.v
+}
+func (x *Pointer[T]) Store(val *T) {
+	simrt.Point("atomic.store", true)
+	simrt.SyncAddr(unsafe.Pointer(x))
+	x.v = val
+}
 func (x *Pointer[T]) Swap(new *T) (old *T) {
 	simrt.Point("atomic.swap", true)
+	simrt.SyncAddr(unsafe.Pointer(x))
 	old = x.v
 	x.v = new
 	return
 }
 func (x *Pointer[T]) CompareAndSwap(old, new *T) bool {
 	simrt.Point("atomic.cas", true)
+	simrt.SyncAddr(unsafe.Pointer(x))
 	if x.v == old {
 		x.v = new
 		return true
@@ -297,9 +386,14 @@ func (x *Pointer[T]) CompareAndSwap(old, new *T) bool {
 
 type Value struct{ v any }
 
-func (x *Value) Load() any { simrt.Point("atomic.load", false); return x.v }
+func (x *Value) Load() any {
+	simrt.Point("atomic.load", false)
+	simrt.SyncAddr(unsafe.Pointer(x))
+	return x.v
+}
 func (x *Value) Store(val any) {
 	simrt.Point("atomic.store", true)
+	simrt.SyncAddr(unsafe.Pointer(x))
 	if val == nil {
 		panic("sync/atomic: store of nil value into Value")
 	}
@@ -307,12 +401,14 @@ func (x *Value) Store(val any) {
 }
 func (x *Value) Swap(new any) (old any) {
 	simrt.Point("atomic.swap", true)
+	simrt.SyncAddr(unsafe.Pointer(x))
 	old = x.v
 	x.v = new
 	return
 }
 func (x *Value) CompareAndSwap(old, new any) bool {
 	simrt.Point("atomic.cas", true)
+	simrt.SyncAddr(unsafe.Pointer(x))
 	if x.v == old {
 		x.v = new
 		return true
